@@ -181,3 +181,19 @@ def fam_builder(seed, big):
         add([], "join", shell=sh)
         add([["arg", "extra arg"], ["env", "A", "1"]], "capture", shell=sh)
     return out
+
+
+def fam_race(seed, big):
+    """C08: two threads launch concurrently; thread B's complete launch is placed before each of thread A's
+    parent-side system calls in turn (every single-preemption interleaving)"""
+    out = []
+    i = 0
+    confs = [(["pipe", "pipe", "pipe"], ["none", "pipe", "none"]), (["none", "pipe", "none"], ["pipe", "pipe", "pipe"])]
+    if big:
+        confs += [(["pipe", "none", "pipe"], ["pipe", "none", "none"]), (["none", "none", "none"], ["none", "none", "pipe"])]
+    for (a, b) in confs:
+        for at in range(0, 26):
+            out.append({"id": "race%d" % i, "kind": "race", "class": "race", "switch_at": at, "a": a, "b": b,
+                        "detached": False})
+            i += 1
+    return out
